@@ -93,7 +93,7 @@ def check(col, prog, tier, profile, fixture=None):
     crate = prog.crate(fixture or "rlib_f80")
     sfx = "" if profile == "dev" else "@" + profile
     fk = util.fkey
-    col.rule("X1" + sfx, "every asm block: balanced x87 stack, stored expression = specification, widths match, conditions false on unordered", floor=11)
+    col.rule("X1" + sfx, "every asm block: balanced x87 stack, stored expression = specification, widths match, conditions false on unordered", floor=10)
     col.rule("X2" + sfx, "comparison family: gt/ge swapped lt/le, no negations, partial_cmp table", floor=4)
     col.rule("X3" + sfx, "== is numeric (through the comparisons), not derived on bytes; no Eq", floor=2)
     col.rule("X4" + sfx, "assigning operators delegate to the matching operator; abs; Default = ZERO", floor=6)
@@ -197,8 +197,8 @@ def check(col, prog, tier, profile, fixture=None):
                 col.ok("X1" + sfx, loc, key, "%s; depth max %d, balanced" % ("; ".join(lines), m.maxdepth))
             else:
                 col.violation("X1" + sfx, key, loc, "%s: the x87 block does not compute the specified result: %s" % (b.path, why), {"lines": lines})
-    if not fixture and nblocks < 11:
-        col.violation("X1" + sfx, "asm-block-count", "-", "expected 11 asm blocks on this target, found %d" % nblocks)
+    if not fixture and nblocks < 10:
+        col.violation("X1" + sfx, "asm-block-count", "-", "expected at least 10 asm blocks on this target (4 arithmetic, neg, lt, min, max, 2 conversions), found %d" % nblocks)
 
     # ---------------- X2
     def body_of(tr, nm):
